@@ -144,5 +144,5 @@ Section Cached.
 End Cached.
 
 (** the two instances the harness runs *)
-Definition crun_case_fl := crun_case FreeList.put FreeList.get FreeList.init_range.
-Definition crun_case_tagged := crun_case FreeListTagged.tput FreeListTagged.tget FreeListTagged.tinit_range.
+Definition crun_case_fl := crun_case FreeList.G FreeList.put FreeList.get FreeList.init_range.
+Definition crun_case_tagged := crun_case FreeListTagged.TG FreeListTagged.tput FreeListTagged.tget FreeListTagged.tinit_range.
